@@ -191,6 +191,29 @@ func Verif_C11_OverBudget(cfg int) {
 	verifReach("end")
 }
 
+// Verif_C11_FaultCount: the limits must also hold after driver failures. Device variant with
+// maxMemoryAllocationCount 2 and/or heap size limits (cfg%32); 4 dedicated allocations of a symbolic size, every
+// vkAllocateMemory call may fail (at most 2 faults); in between any live allocation may be freed. After every step
+// the simulated device's live objects and bytes are compared with the limits.
+func Verif_C11_FaultCount(cfg int) {
+	w := newWorld(11, cfg%32)
+	w.dev.faults, w.dev.faultsLeft = true, 2
+	for i := 0; i < 4; i++ {
+		nops := 1
+		if len(w.live) > 0 {
+			nops = 2
+		}
+		switch verifChoice("op", nops) {
+		case 0:
+			w.allocate(3, nil, 1, 300) // dedicated, default pools
+		case 1:
+			w.free(verifChoice("victim", len(w.live)))
+		}
+		w.oracleC11("C11/limits-hold-after-driver-failures")
+	}
+	verifReach("end")
+}
+
 // Verif_C19_Fallback: last clause of C19. A request whose eligible types are 1 and 2 (both host-visible, same heap);
 // every AllocateMemory driver call may fail. If the request fails, every eligible type must have received an attempt;
 // if it succeeds it must have landed in an eligible type.
